@@ -282,6 +282,13 @@ def shapes(tier, seed):
     S.append(PrettyShape('minhex:hand:align-gap', prog={'main.asm': [('instr', 'nop', None), ('align', C(8)), ('data', '.byte', [C(7)])]},
                          cfgargs=dict(origin=0, consts={}), props=['C16'], binary=True, start=0, pretty='minhex', width=48))
     for fmt in fmts:
+        S.append(PrettyShape(f'{fmt}:hand:org-then-include', prog={
+            'main.asm': [('label', 'a'), ('data', '.byte', [C(1), C(2)]), ('label', 'b'), ('instr', 'nop', None), ('label', 'c'),
+                         ('org', ('+', V('o0'), C(0x20)), None), ('include', 'inc.asm'), ('data', '.byte', [C(9)])],
+            'inc.asm': [('data', '.byte', [('lsb', V('v2')), C(7)]), ('instr', 'nop', None)]},
+            cfgargs=dict(origin=Sym('o0', 0, 0x7000), consts={'v2': c02.SYMS['v2'], 'o0': (0, 0x7000)}),
+            props=['C16'], binary=True, start=Sym('o0', 0, 0x7000), pretty=fmt, width=48))
+    for fmt in fmts:
         S.append(PrettyShape(f'{fmt}:hand:include', prog={
             'main.asm': [('data', '.byte', [C(1)]), ('include', 'inc.asm'), ('label', 'b'), ('data', '.2byte', [L('b'), L('i')])],
             'inc.asm': [('label', 'i'), ('instr', 'ld8', ('lsb', V('v2'))), ('instr', 'nop', None)]},
